@@ -744,6 +744,15 @@ func readConfigFile() (fileData []byte, err error) {
 
 // Saves configuration to the YAML file and also saves the user filter contents to a file
 func (c *configuration) write(tlsMgr *tlsManager) (err error) {
+	// Get the TLS configuration before locking c, since the TLS manager locks
+	// c while holding its own lock, see [tlsManager.validateTLSSettings] and
+	// [tlsManager.handleTLSConfigure], so taking the locks in the opposite
+	// order here would be a deadlock.
+	var tlsConf *tlsConfigSettings
+	if tlsMgr != nil {
+		tlsConf = tlsMgr.config()
+	}
+
 	c.Lock()
 	defer c.Unlock()
 
@@ -751,8 +760,7 @@ func (c *configuration) write(tlsMgr *tlsManager) (err error) {
 		config.Users = globalContext.auth.usersList()
 	}
 
-	if tlsMgr != nil {
-		tlsConf := tlsMgr.config()
+	if tlsConf != nil {
 		config.TLS = *tlsConf
 	}
 
